@@ -194,11 +194,14 @@ func gen(r *hx.Rng, n int, tier string) []string {
 	for _, c := range cfgs {
 		byScheme[c.scheme] = append(byScheme[c.scheme], c)
 	}
-	zeroDirected := 0
+	zeroDirected := map[string]int{}
+	zeroWanted := func(c config) bool {
+		return (c.scheme == "pkcs1" && c.bits == 2048 && zeroDirected[c.scheme] < 8) || (c.scheme == "pss" && c.bits == 2048 && zeroDirected[c.scheme] < 6)
+	}
 	for i := 0; len(out) < n; i++ {
 		c := cfgs[i%len(cfgs)]
 		round := i / len(cfgs)
-		if round >= 2 && !(round == 2 && (c.scheme == "pkcs1" || c.scheme == "pss") && c.bits == 2048 && zeroDirected < 12) {
+		if round >= 2 && !(round == 2 && zeroWanted(c)) {
 			// weighted: the encodings of ECDSA carry most of the property
 			sch := hx.PickS(r, []string{"ecdsa", "ecdsa", "ecdsa", "ecdsa", "ecdsa", "ecdsa", "ed25519", "pkcs1", "pss", "pss"})
 			c = hx.PickS(r, byScheme[sch])
@@ -208,9 +211,9 @@ func gen(r *hx.Rng, n int, tier string) []string {
 			out = append(out, x.vcase(c, "ok:tink"))
 		case round == 1:
 			out = append(out, x.scase(c))
-		case round == 2 && (c.scheme == "pkcs1" || c.scheme == "pss") && c.bits == 2048 && zeroDirected < 12:
+		case round == 2 && zeroWanted(c):
 			// directed: zero-stripped genuine signatures (the fixed-length rule), a dozen per run
-			zeroDirected++
+			zeroDirected[c.scheme]++
 			out = append(out, x.vcase(c, "zero"))
 		default:
 			switch r.Intn(12) {
